@@ -109,6 +109,9 @@ package fastcgi
 //@   ensures [usable_response] usable(resp, err)
 //@ func (*FCGIClient).Get
 //@   requires c != nil && p != nil
+//@   // C13: the request body reaches the responder byte for byte, whatever its length and whether or not the length
+//@   // was announced: the reader handed to Request is the caller's body itself (no wrapper that could cut it short)
+//@   at call (*FCGIClient).Request assert [body_passed_on_untouched] arg2 == body
 //@   modifies Response.Header, Response.StatusCode, Response.Status, Response.TransferEncoding, Response.ContentLength, Response.Body, MV:map[string]string, MD:map[string]string
 //@   ensures [usable_response] usable(resp, err)
 //@ func (*FCGIClient).Head
@@ -121,6 +124,9 @@ package fastcgi
 //@   ensures [usable_response] usable(resp, err)
 //@ func (*FCGIClient).Post
 //@   requires c != nil && p != nil
+//@   // C13: the request body reaches the responder byte for byte, whatever its length and whether or not the length
+//@   // was announced: the reader handed to Request is the caller's body itself (no wrapper that could cut it short)
+//@   at call (*FCGIClient).Request assert [body_passed_on_untouched] arg2 == body
 //@   modifies Response.Header, Response.StatusCode, Response.Status, Response.TransferEncoding, Response.ContentLength, Response.Body, MV:map[string]string, MD:map[string]string
 //@   ensures [usable_response] usable(resp, err)
 //@ func writeHeader
